@@ -58,6 +58,7 @@ class SimNode:
         self.fault_plan = []  # consumed one per request: None | kind
         self.requests = []
         self.last_reported = None
+        self.reports = {}  # scriptPubKey -> keys reported by the most recent scan for it
         self.order_mode = "insertion"  # or "shuffled" / "reversed"
         self.height = 200
 
@@ -120,6 +121,7 @@ class SimNode:
             keys = list(keys)
             self.rng.shuffle(keys)
         self.last_reported = {"desc": desc, "spk": spk, "keys": list(keys)}
+        self.reports[spk] = list(keys)
         unspents = []
         total = 0
         for txid, vout in keys:
